@@ -94,6 +94,7 @@ class C18(Prop):
     id = "C18"
     title = "Healing and tool loops stop within their budgets against any generator"
     fixed_prefix = 0
+    extractors = ["eval-loops"]
     quick_budget = 2500
     thorough_budget = 80000
     all_branches = ["heal:first", "heal:healed", "heal:degraded", "heal:degraded0", "heal:raise",
@@ -144,6 +145,12 @@ class C18(Prop):
             x: int
             note: str = ""
         self.S = S
+
+    def extract(self, ctx):
+        from .. import core
+        from ..extract import eval_loops
+        from operon_ai import providers
+        return eval_loops.run(core.LEAN, core.write_if_changed, self.cl, self.rs, self.nu, providers)
 
     # --- generation --------------------------------------------------------------------------------------------
     LIMS = [0, 0, 1, 1, 2, 2, 3, 3, 4, 4, 5, 6, -1, -3]
